@@ -1,9 +1,10 @@
+import GitSizer.Proofs.GraphRun7
 import GitSizer.Proofs.Counts
 /-! # C05 — Counters saturate and never wrap
     Property theorems (arithmetic core). All statements are about `Gen.*`, the Lean definitions
     REGENERATED from counts/counts.go on this run. -/
 namespace GitSizer.C05
-open GitSizer
+open GitSizer GitSizer.Spec GitSizer.Graph Gen
 
 /-- `Count32.Plus` is `min (a+b) (2^32-1)` for all 2^64 operand pairs. -/
 theorem plus32_saturates (a b : BitVec 32) :
@@ -51,5 +52,14 @@ theorem fold_order_independent (c : Nat) {l1 l2 : List Nat} (p : l1.Perm l2) : s
 
 /-- non-vacuity: a pair that overflows -/
 example : (Gen.Count32.Plus (BitVec.ofNat 32 4294967290) (BitVec.ofNat 32 10)).toNat = 4294967295 := by decide
+
+
+/-- **Every reported number is `min(true value, capacity)`** — for a whole run: the statement is
+    `RunResult`, whose 22 right-hand sides are each `clamp cap (true count | sum | maximum)` with
+    the truth computed in unbounded `Nat`; never a wrapped value. -/
+theorem whole_run_saturates (r : Repo) (ops : List Op) (v : ValidRun r ops) :
+    ∃ st, runOps r ops {} = .ok st ∧
+      RunResult r st.hist (blobsOf ops) (treesOf ops) (commitsOf ops) (tagsOf ops) (refsOf ops) :=
+  let ⟨st, h, _, res⟩ := v.result; ⟨st, h, res⟩
 
 end GitSizer.C05
